@@ -20,7 +20,7 @@ CHECKS = {
  "C04": dict(engine="dynmock", technique="runtime monitoring: randomized differential testing of ordered sequences against Spec-M, global index via hook H2",
    text="Every call to an ordered method is judged against the slot arithmetic of Spec-M (accept/reject kind, response, global index); histories follow the expected sequence and deviate at random points.", ref="5 C04", note=A_NOTE),
  "C05": dict(engine="shapegen", technique="runtime monitoring of generated programs: caller, input matcher and answer function log probes and addresses of every argument; generator-side expectation",
-   text="For every generated trait shape (receiver x arity 0-5 x 18 parameter kinds x 9 return kinds x sync/async forms x api forms) the values and addresses seen by the matcher and the answer function must equal the caller's, position by position; the result must be the answer's; &mut mutations must be visible; async methods evaluate once per await and not at all when dropped unpolled.", ref="5 C05", note=B_NOTE),
+   text="For every generated trait shape (receiver x arity 0-5 x 19 parameter kinds (incl. method generics with and without Send bounds) x 9 return kinds x sync/async forms x api forms) the values and addresses seen by the matcher and the answer function must equal the caller's, position by position; the result must be the answer's; &mut mutations must be visible; async methods evaluate once per await and not at all when dropped unpolled.", ref="5 C05", note=B_NOTE),
  "C06": dict(engine="shapegen", technique="translation validation by execution: every generated matching! invocation is evaluated on its whole finite argument domain in both evaluation modes and compared with the generator's evaluation of the pattern and a rustc-compiled match",
    text="For each generated pattern (literals, ranges, bindings, @, or-patterns, tuple/struct/enum/Option/slice patterns, string literals against &str/String/newtype, eq!/ne!, two alternatives, guards incl. ||) the accept/reject decision on every tuple of the domain, with diagnostics off (unordered) and on (ordered), must equal the independent evaluation. A hand-shaped Rust match compiled next to it cross-checks the generator's evaluator; disagreement between the two oracles is inconclusive.", ref="5 C06", note=B_NOTE + " Calibration: at most two top-level alternatives (three or more do not parse in the pinned macro)."),
  "C07": dict(engine="dynmock", technique="runtime monitoring: decision-table sweep (strict/partial x unmentioned/unmatched/matched x default body/real fn) judged by Spec-M with callback event logs",
@@ -34,23 +34,23 @@ CHECKS = {
  "C10": dict(engine="sched", technique="runtime monitoring: controlled scheduler over instrumented atomics/locks (hook H3), linearizability checking of recorded histories against Spec-M, 16-thread stress with conservation laws, TSan/Miri in the thorough tier",
    text="Every schedule of small cases (<= 4 calls, <= 3 threads) is enumerated depth-first, larger ones sampled (random, PCT); each history recorded at the client boundary must be linearizable w.r.t. Spec-M with matching final counters and verification text. Stress runs are judged by conservation (each chain position / ordered slot handed out exactly once).", ref="5 C10", note="Sequentially consistent interleavings at hook granularity only; Spec-M trusted as in engine A; scheduler in engines/harness/src/sched.rs."),
  "C11": dict(engine="crashbox", technique="runtime monitoring by fault injection: every (crash point x instance topology x met/unmet) scenario runs in a child process whose exit status and panic reports are the observed events; plus caught-user-panic histories judged by Spec-M",
-   text="All expressible combinations of 19 crash points and 12 topologies (528 scenarios) are run in child processes: the child must exit 101 (not die by SIGABRT), report the injected panic first and report no second panic. Histories with user panics injected into matcher/answer/real/default callbacks and caught are then continued and judged by Spec-M (mock usable, verification reflects matched calls).", ref="5 C11", note="std builds only. Output of the default panic hook is parsed. The table is finite and fully run; histories of the second stage are sampled."),
+   text="All expressible combinations of 19 crash points and 14 topologies (628 scenarios) are run in child processes: the child must exit 101 (not die by SIGABRT), report the injected panic first and report no second panic. Histories with user panics injected into matcher/answer/real/default callbacks and caught are then continued and judged by Spec-M (mock usable, verification reflects matched calls).", ref="5 C11", note="std builds only. Output of the default panic hook is parsed. The table is finite and fully run; histories of the second stage are sampled."),
  "C12": dict(engine="sched", technique="runtime monitoring: drop/clone registry on instrumented value types, conservation checks over controlled schedules (hook H3 lock sites) and 8-thread stress; Miri/TSan/valgrind in the thorough tier",
    text="For 13 return shapes (plain, Option, and Deep Result/tuple/Option/Poll mixes with owned leaves) the registry must show: a single-use value reaches at most one caller under every enumerated/sampled schedule, every other request is refused by a mock panic, delivered values are alive, repeatable values are clones of the intact stored original, every constructed value is dropped exactly once.", ref="5 C12", note="The compile-time half (builder refuses to quantify non-Clone values) is sampled by the compile probe when present, not monitored at run time. Registry in engines/harness/src/toks.rs is trusted."),
  "C13": dict(engine="sched", technique="runtime monitoring: every live lent reference re-validated (address, identity, checksum, distinctness, not dropped) after every step of random lending sequences; drop-order checks over the registry; controlled schedules at the value-chain insertion site, stress, Miri/TSan/valgrind in the thorough tier",
-   text="Random phases of make_ref / borrowed returns / delegation-helper lending / make_mut on an original and a clone, and 2-8 threads lending from one shared instance; all references are re-checked after each step and the registry must show values dropped exactly once and never before their owner (only make_mut releases).", ref="5 C13", note="unimock has no unsafe code; memory-level validity is sampled by Miri/valgrind in the thorough tier. Registry trusted."),
+   text="Random phases of make_ref / borrowed returns / delegation-helper lending / make_mut on an original and a clone (instances finally dropped normally or while their thread unwinds), and 2-8 threads lending from one shared instance; all references are re-checked after each step and the registry must show values dropped exactly once and never before their owner (only make_mut releases).", ref="5 C13", note="unimock has no unsafe code; memory-level validity is sampled by Miri/valgrind in the thorough tier. Registry trusted."),
  "C15": dict(engine="shapegen", technique="runtime monitoring of generated programs (default bodies log what they receive; required-method answers log their arguments; body evaluated independently by the generator) plus Spec-M histories (dynmock)",
-   text="Generated traits with a provided method on six receiver kinds whose body calls 0-3 required methods; reached by fall-through (strict/partial) or applies_default_impl() (ordered and counted), after an earlier borrowed delegation and mixed with direct calls; result, argument logs, shared counts/slots and the moment of verification for by-value receivers are checked.", ref="5 C15", note=B_NOTE + " `self: Box<Self>` provided methods are rejected by the pinned macro and are out of scope."),
+   text="Generated traits with a provided method on six receiver kinds whose body calls 0-3 required methods; reached by fall-through (strict/partial) or applies_default_impl() (ordered and counted), after an earlier borrowed delegation and mixed with direct calls; result, argument logs, shared counts/slots and the moment of verification for by-value receivers are checked (Rc/Arc also with a live Weak handle). A differential stage drives provided methods of a user trait that format self through Display/Debug supertraits on a plain struct and on the mock.", ref="5 C15", note=B_NOTE + " `self: Box<Self>` provided methods are rejected by the pinned macro and are out of scope."),
  "C16": dict(engine="shapegen", technique="runtime monitoring of generated programs (real functions log arguments, addresses and nested results) plus Spec-M histories (dynmock)",
    text="Generated traits with 1-4 methods and unmock_with lists mixing path / path(params..) / _ and entries for skipped associated functions; every method is unmocked via an empty partial mock and via applies_unmocked(); exactly one invocation of the right function with the caller's arguments, result unchanged, calls back into the mock counted there, `_` panics naming the method.", ref="5 C16", note=B_NOTE),
  "C17": dict(engine="shapegen", technique="runtime monitoring of generated programs: Debug rendering and leaf addresses of every returned value compared with the generator's rendering of the configured value, over a calibrated set of accepted return types",
    text="273 accepted return types over Option/Result/Vec/Poll/1-4-tuples x owned and borrowed leaves (depth <= 3); every variant, 0-4 elements, distinct leaves; four configuration paths. Returned structure must equal the configured one, borrowed leaves keep their addresses over repeated calls, a further request is refused exactly when an owned leaf was configured through a single-use path.", ref="5 C17", note=B_NOTE + " Accepted types calibrated once: gen/accepted/returns.json."),
  "C18": dict(engine="dynmock", technique="runtime monitoring: metamorphic testing (run-against-run comparison of the real code, no model)",
-   text="Four relations between runs of the real code: clause permutation, routing over clones/threads, a second independent mock with interleaved foreign calls, swapped generic instantiations. Any difference in a call outcome or the verification line multiset is a violation.", ref="5 C18", note="No specification involved; trusted: the transformation code in meta.rs. std build only (the documented no_std difference makes routing over clones observable there)."),
+   text="Four relations between runs of the real code: clause permutation, routing over clones/threads (optionally with derived mocks parked in instances' own value chains), a second independent mock with interleaved foreign calls, swapped generic instantiations. Any difference in a call outcome or the verification line multiset is a violation.", ref="5 C18", note="No specification involved; trusted: the transformation code in meta.rs. std build only (the documented no_std difference makes routing over clones observable there)."),
  "C19": dict(engine="shapegen", technique="runtime monitoring of generated programs and Spec-M histories: panic texts parsed and compared with rustc's own Debug renderings computed at the call site, captured file:line and the generator's per-argument evaluation",
-   text="(a) every generated method shape is called on mocks that must fail in three ways; the text must start with Trait::method(Debug of each argument, ? for non-Debug). (b) every rejected tuple of every generated matching! pattern: pattern named by source text and file:line; for guard-free single-alternative patterns the listed input positions must be exactly the rejecting ones, each with its value. (c) dynmock: every mock-induced panic kind names its method and pattern.", ref="5 C19", note=B_NOTE + " Known finding F4 (Impossible slot) is listed in known_findings.json."),
+   text="(a) every generated method shape is called on mocks that must fail in three ways; the text must start with Trait::method(Debug of each argument, ? for non-Debug). (b) every rejected tuple of every generated matching! pattern: pattern named by source text and file:line (single-line and multi-line invocations); for guard-free single-alternative patterns the listed input positions must be exactly the rejecting ones, each with its value. (c) dynmock: every mock-induced panic kind names its method and pattern.", ref="5 C19", note=B_NOTE + " Known finding F4 (Impossible slot) is listed in known_findings.json."),
  "C20": dict(engine="mirrors", technique="runtime monitoring by differential testing: a plain struct and a Unimock replay the same random script through upstream provided methods; results, buffers and the logged required-method call sequences are compared",
-   text="11 trait families (std io Write/Read/BufRead/Seek, Hasher, Display/Debug, embedded-hal delay/digital/i2c/spi/pwm, tokio and futures poll traits): 82 of the mirrored methods are driven; scripts contain short reads/writes, Interrupted, errors, EOF and Pending; strict and partial mocks alternate. The method list is parsed from src/mock/*.rs so that undriven methods are reported.", ref="5 C20", note="Trusted: the plain reference structs in engines/harness/src/bin/mirrors.rs implement only the required methods."),
+   text="14 families (std io Write/Read/BufRead/Seek, Hasher, Display/Debug directly and as supertraits of a user trait, embedded-hal delay/digital/i2c/spi/pwm, tokio and futures poll traits; Write and DelayNs additionally with the script turned into a chain of ordered next_call patterns and then() series): 82 of the mirrored methods are driven; scripts contain short reads/writes, Interrupted, errors, EOF and Pending; strict and partial mocks alternate. The method list is parsed from src/mock/*.rs so that undriven methods are reported.", ref="5 C20", note="Trusted: the plain reference structs in engines/harness/src/bin/mirrors.rs implement only the required methods."),
 }
 
 LEVEL = {p: "exploration" for p in CHECKS}
@@ -91,7 +91,7 @@ def main():
              "kind_free_text": "Engine C: token-passing controlled scheduler driven by hook H3, linearizability checker, real-thread stress, sanitizer stages"},
             {"name": "shapegen", "path": "gen/shapegen.py", "serves_properties": ["C05", "C15", "C16", "C06", "C17", "C19", "C20"],
              "kind_free_text": "Engine B: python generators write Rust programs (one module per shape/pattern) with logging drivers; expectations computed by the generator; built against /repo and run"},
-            {"name": "mirrors", "path": "engines/harness/src/bin/mirrors.rs", "serves_properties": ["C20"],
+            {"name": "mirrors", "path": "engines/harness/src/bin/mirrors.rs", "serves_properties": ["C20", "C15"],
              "kind_free_text": "differential script replay: plain struct vs Unimock through upstream provided methods"},
             {"name": "crashbox", "path": "engines/harness/src/bin/crashbox.rs", "serves_properties": ["C11"],
              "kind_free_text": "Engine D: crash-point x topology scenarios, each in an expendable child process"},
